@@ -94,7 +94,7 @@ pub fn run_rtprecv(run: &mut Run, fix: &mut Fix, from: u8, pkt: &[u8], nt: bool)
 fn protect(fix: &mut Fix, rng: &mut Rng) -> Vec<u8> {
     let Some(tx) = fix.tx.as_mut() else { return vec![] };
     if rng.chance(1, 3) {
-        let mut c = crate::catch({ let p = super::rtp::gen_rtcp_packet(rng); move || rustrtc::rtp::marshal_rtcp_packets(&[p]).unwrap_or_default() }).unwrap_or_default();
+        let mut c = super::catch_ack({ let p = super::rtp::gen_rtcp_packet(rng); move || rustrtc::rtp::marshal_rtcp_packets(&[p]).unwrap_or_default() }).unwrap_or_default();
         if c.len() >= 8 { c[4..8].copy_from_slice(&(0x2000u32 + rng.below(3) as u32).to_be_bytes()); }
         if tx.protect_rtcp(&mut c).is_ok() { c } else { vec![] }
     } else {
@@ -124,7 +124,7 @@ pub fn run_rtpflood(run: &mut Run, kind: u8, count: u32) {
     let case = format!("rtpflood {kind} {count}");
     let mut times = [0f64; 2];
     let mut retained = 0u64; let mut bytes_in = 0u64;
-    let r = crate::catch(move || {
+    let r = super::catch_ack(move || {
         let mut out = (0u64, 0u64, [0f64; 2]);
         for (round, n) in [count / 4, count].into_iter().enumerate() {
             let mut fix = Fix::new(if kind == 1 { 2 } else { 0 });
@@ -178,8 +178,8 @@ pub fn special(run: &mut Run, rng: &mut Rng, thorough: bool) {
             let from = *rng.pick(&[0u8, 0, 0, 1, 2, 3]);
             let base: Vec<u8> = match rng.below(6) {
                 0 | 1 => { let mut pk = super::rtp::gen_rtp_packet(rng); let rs = rng.next() as u32; pk.header.ssrc = *rng.pick(&[0x1000u32, 0x1001, rs]); pk.header.payload_type = *rng.pick(&[96u8, 97, 98, 0, 72, 80]);
-                    crate::catch(move || pk.marshal().unwrap_or_default()).unwrap_or_default() }
-                2 => { let p = super::rtp::gen_rtcp_packet(rng); crate::catch(move || rustrtc::rtp::marshal_rtcp_packets(&[p]).unwrap_or_default()).unwrap_or_default() }
+                    super::catch_ack(move || pk.marshal().unwrap_or_default()).unwrap_or_default() }
+                2 => { let p = super::rtp::gen_rtcp_packet(rng); super::catch_ack(move || rustrtc::rtp::marshal_rtcp_packets(&[p]).unwrap_or_default()).unwrap_or_default() }
                 3 | 4 => protect(&mut fix, rng),
                 _ => { let n = rng.below(40) as usize; let mut b = rng.bytes(n); if !b.is_empty() { b[0] = 0x80 | (b[0] & 0x3F); } b }
             };
